@@ -19,4 +19,28 @@ PROPS = {
         explanation="Theorems C01_* (props/C01.v) hold for every integer day number / every triple; the figures below describe the differential run that ties the model to the code.",
         trusted_base=TB_COMMON, assumptions=ASSUME_COMMON,
     ),
+    "C03": dict(
+        cases_mod="CasesArith", check_fn="check_C03",
+        rule="i64 timestamps: both range ends +-1 and +-1 day, 0, +-1, +-86399/86400/86401, i64 extremes and the i64-overflow edge of the epoch shift, random in/out of range; pairs of DateTimes (equal instants under different offsets, adjacent days, straddling day 0, range ends) compared with ==, <, >=, cmp; Date and Time pairs. Non-trivial: every timestamp case; pairs whose operands differ.",
+        explanation="Theorems C03_* hold for every i64 timestamp and every pair of values; figures describe the differential run.",
+        trusted_base=TB_COMMON, assumptions=ASSUME_COMMON,
+    ),
+    "C04": dict(
+        cases_mod="CasesArith", check_fn="check_C04",
+        rule="DateTime (boundary-dense days x nanoseconds x offsets) x unit (h, min, s, ms, us, ns, days) x count from {0,1,23,24,59,60,999,1000,86400,5124095,5124096,6000000,2^31-1,2^31,2^31+1,2^32-2,2^32-1,...} and random u32; Durations up to u64::MAX seconds; Time operands; Date +/- days and Durations. Non-trivial: count != 0.",
+        explanation="Theorems C04_* hold for every value, count and unit; figures describe the differential run (dev profile = overflow checks on, release = wrapping).",
+        trusted_base=TB_COMMON, assumptions=ASSUME_COMMON,
+    ),
+    "C06": dict(
+        cases_mod="CasesArith", check_fn="check_C06",
+        rule="ordered pairs of DateTimes x 7 units: independent draws, pairs within one unit of each other (remainders ordered both ways), pairs a whole number of units +-1 ns apart, pairs straddling 0001-01-01, same day; Time and Date pairs; duration_between both ways. Non-trivial: operands differ.",
+        explanation="Theorems C06_* hold for every pair of values satisfying the representation invariant; figures describe the differential run.",
+        trusted_base=TB_COMMON, assumptions=ASSUME_COMMON,
+    ),
+    "C08": dict(
+        cases_mod="CasesArith", check_fn="check_C08",
+        rule="constructors over boundary products (hour 0..25, 2^31, 2^32-1; seconds around 86400; nanoseconds around 86400e9 and u64 extremes; thorough: all 86400 seconds); times of day x offsets x unit x u32 counts for add_/sub_; pairs of Times for + and -; Durations up to u64::MAX s; getters under offsets; Time::from(DateTime) incl. instants before 0001-01-01. Non-trivial: count != 0, or any non-add case.",
+        explanation="Theorems C08_* hold for every Time, count, unit and every history of operations; figures describe the differential run.",
+        trusted_base=TB_COMMON, assumptions=ASSUME_COMMON,
+    ),
 }
